@@ -174,12 +174,13 @@ Qed.
 Lemma ad_fold_spec : forall p k group vc bh cb bn b hl heads l i,
   tl bh = hl :: var_args vc ->
   Inv p l -> ADC (l :: p) k cb bn vc bh b ->
-  let r := fold_left (ad_head_step p k group vc bh cb) heads (l, i) in
-  Inv p (fst r) /\ extA (l :: p) (fst r :: p) /\
-  forall fuel s, abs fuel (fst r :: p) s = abs fuel (l :: p) s ++ spec_adf fuel heads hl b vc i s.
+  Inv p (fst (fold_left (ad_head_step p k group vc bh cb) heads (l, i))) /\
+  extA (l :: p) (fst (fold_left (ad_head_step p k group vc bh cb) heads (l, i)) :: p) /\
+  forall fuel s, abs fuel (fst (fold_left (ad_head_step p k group vc bh cb) heads (l, i)) :: p) s
+                 = abs fuel (l :: p) s ++ spec_adf fuel heads hl b vc i s.
 Proof.
-  intros p k group vc bh cb bn b hl heads. induction heads as [|[[f a] pr] t IH]; intros l i Htl I A; simpl.
-  - splits; [exact I|intros j _; reflexivity|]. intros fuel s. rewrite app_nil_r. reflexivity.
+  intros p k group vc bh cb bn b hl heads. induction heads as [|[[f a] pr] t IH]; intros l i Htl I A; cbn [fold_left spec_adf].
+  - simpl fst. splits; [exact I|intros j _; reflexivity|]. intros fuel s. rewrite app_nil_r. reflexivity.
   - destruct (ad_head_step_spec p l k group vc bh cb bn b i f a pr I A) as [Hst Hsnd].
     destruct (ad_head_step p k group vc bh cb (l, i) (f, a, pr)) as [l' i'] eqn:E. simpl in Hst, Hsnd. subst i'.
     destruct Hst as (I' & Hx & Hfrm & A' & Habs).
@@ -242,7 +243,7 @@ Proof.
     - intros fuel. rewrite <- Hr1.
       rewrite (render_stable (l2 :: p) (l3 :: p) (I_cl _ _ I2) Hx23 fuel bn (Hfrm12 _ Hfr1)).
       apply (render_stable (l1 :: p) (l2 :: p) (I_cl _ _ I1) Hx12 fuel bn Hfr1). }
-  pose proof (ad_fold_spec p k group vc bh cb bn b hl heads l3 0 eq_refl I3 A3) as Hf. cbv zeta in Hf.
+  pose proof (ad_fold_spec p k group vc bh cb bn b hl heads l3 0 eq_refl I3 A3) as Hf.
   destruct Hf as (I4 & Hx34 & Habs4).
   assert (Hx03 : extA (l :: p) (l3 :: p)).
   { intros j Hj. rewrite Hx23; [|apply Hfrm12, Hfrm1; exact Hj].
@@ -250,13 +251,10 @@ Proof.
   unfold st_post; splits.
   - exact I4.
   - intros j Hj. rewrite Hx34; [apply Hx03; exact Hj|]. apply Hfrm3, Hfrm12, Hfrm1. exact Hj.
-  - intros fuel s. rewrite Habs4. f_equal.
+  - intros fuel s Hu. rewrite Habs4. f_equal.
     rewrite (abs_defs fuel (l3 :: p)), Hdefs3.
     destruct (sig_eqb s sb) eqn:Es.
-    + (* body_<k> itself: it was not defined before, and is not a user predicate: both sides are its fresh clause *)
-      apply sig_eqb_eq in Es. subst s.
-      exfalso. (* handled below by restricting to sigs other than sb *)
-      admit_placeholder.
+    + apply sig_eqb_eq in Es. subst s. destruct Hu as [f0 Hu]. discriminate Hu.
     + rewrite Hdo2 by (intros ->; rewrite sig_eqb_refl in Es; discriminate).
       rewrite Hdefs1. symmetry. rewrite <- (abs_old_stable fuel p l (l3 :: p) s I Hx03). reflexivity.
 Qed.
